@@ -124,8 +124,37 @@ def jsonable(x, depth=0):
     return repr(x)
 
 
+_CACHES = {"mods": None, "objs": []}
+
+
+def reset_library_caches():
+    """A run must not depend on what earlier runs of the same worker left in memoisation caches of the
+    library under test (functools.lru_cache / cache at module or class level): clear them before each run."""
+    import sys
+    mods = tuple(sorted(m for m in sys.modules if m == "baize" or m.startswith("baize.")))
+    if mods != _CACHES["mods"]:
+        objs = []
+        for m in mods:
+            mod = sys.modules.get(m)
+            for v in list(getattr(mod, "__dict__", {}).values()):
+                if callable(getattr(v, "cache_clear", None)):
+                    objs.append(v)
+                elif isinstance(v, type):
+                    for w in list(vars(v).values()):
+                        w = getattr(w, "__func__", w)
+                        if callable(getattr(w, "cache_clear", None)):
+                            objs.append(w)
+        _CACHES["mods"], _CACHES["objs"] = mods, objs
+    for o in _CACHES["objs"]:
+        try:
+            o.cache_clear()
+        except Exception:
+            pass
+
+
 def execute_once(prop, plan, sched, variant, workdir):
     """One execution; returns the filled Ctx. Harness exceptions become HarnessError."""
+    reset_library_caches()
     ctx = Ctx(sched, workdir)
     random.seed(mix("global-random", sched.seed))
     was = gc.isenabled()
